@@ -118,7 +118,7 @@ func errorDiscipline(c *Check, r *Repo, f *ssa.Function, noret map[*ssa.Function
 			if why := droppedIdiom(call, f, noret, errIdx); why != "" {
 				c.OK(rule, construct, pos, "error result unused; listed idiom: "+why)
 			} else {
-				c.Bad(rule, construct, pos, "error result of "+cn+" is dropped and the call is not one of the listed idioms (bytes.Buffer write, diagnostic print to stderr/stdout, best-effort dump on a failing path, Init with infallible options)")
+				c.Bad(rule, construct, pos, "error result of "+cn+" is dropped and the call is not one of the listed idioms (bytes.Buffer write, diagnostic print to stderr/stdout, best-effort dump on a failing path, removal of a file, Init with infallible options)")
 			}
 			return
 		}
@@ -284,6 +284,11 @@ func droppedIdiom(call ssa.CallInstruction, f *ssa.Function, noret map[*ssa.Func
 				}
 			}
 		}
+	case "os.Remove", "os.RemoveAll":
+		// deleting a scratch file: a failure leaves a stale file behind and changes neither the exit
+		// status nor what is at the destination; a deletion of the destination itself is judged by
+		// R-cli-semantics (where the generated text is when main ends)
+		return "best-effort removal of a file (cannot make the exit status or the destination wrong; R-cli-semantics follows removals)"
 	case "fmt.Println", "fmt.Printf", "fmt.Print":
 		// allowed only where the function returns right after without producing output (version banner)
 		blk := call.(ssa.Instruction).Block()
